@@ -18,11 +18,8 @@ package main
 //	           counter = () untouched | (delta #label_value ...) | (-1) more than one series of it moved
 
 import (
-	"bytes"
 	"encoding/json"
 	"fmt"
-	"os"
-	"path/filepath"
 	"runtime"
 	"sort"
 	"strings"
@@ -556,22 +553,12 @@ func routeEligible(masks []*maskGen, gaf, gav string, lists [][][]string, x *ext
 	return ok
 }
 
-// ---- finding C17-metric-label-concat (notes/finding-C17-metric-label-concat.md) -------------------------------
-// metric/metric.go hashes the label values of a series by plain concatenation and trusts a one-element hash bucket
+// ---- finding C17-metric-label-concat (notes/finding-C17-metric-label-concat.md; repaired in /repo: b1f7398) -----
+// metric/metric.go hashed the label values of a series by plain concatenation and trusts a one-element hash bucket
 // without comparing the values: two label tuples of one counter whose values concatenate to the same text (("", "x") and
-// ("x", "")) are one series.  A case reaches it iff some counter with two or more labels sees two such tuples on ONE
-// instance.  Such cases are filed under the stream <stream>~label-concat, and only once the finding is listed in
-// known_findings.json (until then they are dropped and counted), so the other streams stay free of it.
-const labelConcatID = "C17-metric-label-concat"
-
-func knownListed(id string) bool {
-	if os.Getenv("C17_ASSUME_LISTED") != "" { // development aid
-		return true
-	}
-	exe, _ := os.Executable()
-	kf, err := os.ReadFile(filepath.Join(filepath.Dir(filepath.Dir(exe)), "known_findings.json"))
-	return err == nil && bytes.Contains(kf, []byte(id))
-}
+// ("x", "")) were one series.  A case reaches it iff some counter with two or more labels sees two such tuples on ONE
+// instance.  Such cases are filed under the stream <stream>~label-concat (the recorded finding's signature); the directed
+// family label-concat produces them on purpose.  Always emitted: a regression stream since the repair.
 
 // Root.Dig(key) + Node.AsString on an event of an observation (the model's label_val, for routing only)
 func goLabelVal(root hx.Sx, key string) string {
@@ -637,14 +624,8 @@ func c17Ext2(c *hmain.Ctx, stream string, masks []*maskGen, gaf, gav string, gig
 	}
 	cs := c17Case(c, masks, gaf, gav, gign, gproc, events)
 	cs = hx.L(append(append([]hx.Sx(nil), hx.Items(cs)...), x.sx(bits))...)
-	if labelConcatCollision(c17ExecExt(cs), x) {
-		if !knownListed(labelConcatID) {
-			c.W.Count(stream + "_dropped_reaches_unlisted_finding_label_concat")
-			return nil
-		}
-		if !strings.HasSuffix(stream, "label-concat") {
-			stream += "~label-concat"
-		}
+	if labelConcatCollision(c17ExecExt(cs), x) && !strings.HasSuffix(stream, "label-concat") {
+		stream += "~label-concat"
 	}
 	obs := c.Do(stream, 2, cs, true)
 	c.W.Count(fmt.Sprintf("%s_route_%d", stream, x.route))
@@ -830,8 +811,8 @@ func c17Gated(c *hmain.Ctx) {
 
 	c17Refused(c)
 
-	// the finding's own family (only once it is listed): two labels, events whose label tuples concatenate alike
-	if knownListed(labelConcatID) {
+	// the finding's own family: two labels, events whose label tuples concatenate alike
+	{
 		for i := 0; i < 40*c.Scale; i++ {
 			m := poolMask(r, []string{`(a)`, `(a)(b)?`, `([ab])`})
 			m.metric = true
